@@ -26,6 +26,21 @@ fn main() {
         }
         return;
     }
+    if args.len() >= 4 && args[1] == "--one" {
+        let sd: u64 = args[3].parse().unwrap();
+        match hashbrown::__verif::sample_one(&args[2], sd) {
+            None => {
+                println!("unknown obligation {}", args[2]);
+                std::process::exit(3);
+            }
+            Some(Ok(())) => println!("contract held on sample-seed {}", sd),
+            Some(Err(m)) => {
+                println!("BREACH: {} (sample-seed {})", m, sd);
+                std::process::exit(1);
+            }
+        }
+        return;
+    }
     if args.len() >= 2 && args[1] == "--list" {
         for h in hashbrown::__verif::HARNESSES {
             println!("{}", h);
